@@ -232,7 +232,7 @@ def run_simulation_shard(spec, res: ShardResult, rng):
         I0 = record[0][1]
         bad = None
         for n, (t, I, absint, umax) in enumerate(record):
-            if not np.isfinite(I) or not np.isfinite(umax):
+            if not np.isfinite(I) or not np.isfinite(umax) or umax > 1e60:
                 res.count("overflowing_runs_truncated")
                 break
             res.count("simulation_steps_observed")
